@@ -211,6 +211,13 @@ func (c *Ctx) callStatic(st *State, x *ast.CallExpr, fn *types.Func, recvExpr as
 		recv = c.evalReceiver(st, recvExpr, fn, sel)
 	}
 	c.checkAtCall(st, x, fn)
+	// an explicit contract for an external function in the verified package's contract file takes precedence over the
+	// built-in model (e.g. bytes.Equal kept abstract)
+	if fn.Pkg() != nil && c.pkg.contracts != nil && fn.Pkg() != c.pkg.types {
+		if ofc := c.pkg.contracts.Funcs[fn.Pkg().Name()+"."+fn.Name()]; ofc != nil && sig.Recv() == nil {
+			return c.applyContract(st, x, c.pkg, fn, nil, ofc, recv, c.evalArgs(st, x, sig))
+		}
+	}
 	if h, ok := prelude[name]; ok {
 		return h(c, st, x, recv)
 	}
@@ -302,7 +309,7 @@ func (c *Ctx) mayInline(fn *types.Func, name string) bool {
 		return false
 	}
 	for _, n := range c.fc.Inline {
-		if n == fn.Name() || n == name || strings.HasSuffix(name, "."+n) {
+		if n == fn.Name() || n == name || strings.HasSuffix(name, "."+n) || strings.HasSuffix(name, "/"+n) {
 			return c.inlineDepth < 6
 		}
 	}
@@ -456,6 +463,11 @@ func (c *Ctx) evalConversion(st *State, x *ast.CallExpr, to types.Type) Val {
 			return c.zero(to)
 		}
 	case *types.Basic:
+		if tu.Kind() == types.UnsafePointer {
+			if p, ok := v.(Ptr); ok {
+				return p
+			}
+		}
 		if isStringType(to) {
 			if s, ok := v.(Slice); ok {
 				return c.bytesToString(st, s, to)
@@ -468,6 +480,19 @@ func (c *Ctx) evalConversion(st *State, x *ast.CallExpr, to types.Type) Val {
 		}
 	case *types.Pointer:
 		if p, ok := v.(Ptr); ok {
+			if b, isB := from.Underlying().(*types.Basic); isB && b.Kind() == types.UnsafePointer {
+				// (*[8]byte)(unsafe.Pointer(&x)): a raw byte view of x. Only whole-view uses are modelled (see toSeq).
+				at, isArr := tu.Elem().Underlying().(*types.Array)
+				if w, _, okI := intInfoOf(p.Elem); okI && isArr && int64(w) == 8*at.Len() && isByteType(at.Elem()) {
+					if c.views == nil {
+						c.views = map[string]types.Type{}
+					}
+					c.views[p.Ref.S] = p.Elem
+					c.trust("unsafe byte view of an integer variable: its bytes are a deterministic function of the variable's current value")
+					return Ptr{p.Ref, p.Idx, tu.Elem()}
+				}
+				unsupp("conversion from unsafe.Pointer to %s at %s", to, c.posStr(x.Pos()))
+			}
 			return Ptr{p.Ref, p.Idx, tu.Elem()}
 		}
 		if s, ok := v.(Scalar); ok {
@@ -484,6 +509,18 @@ func (c *Ctx) evalConversion(st *State, x *ast.CallExpr, to types.Type) Val {
 	}
 	unsupp("conversion %s -> %s at %s", from, to, c.posStr(x.Pos()))
 	return nil
+}
+
+func intInfoOf(t types.Type) (int, bool, bool) {
+	if b, ok := t.Underlying().(*types.Basic); ok {
+		return intInfo(b)
+	}
+	return 0, false, false
+}
+
+func isByteType(t types.Type) bool {
+	b, ok := t.Underlying().(*types.Basic)
+	return ok && b.Kind() == types.Uint8
 }
 
 func widthOfFloat(t types.Type) int {
